@@ -41,6 +41,8 @@ def has_fwd(tp, d=0):
     if d > 20 or getattr(tp, "__origin__", None) is getattr(typing, "Literal", object()):
         return False
     return any(has_fwd(a, d + 1) for a in getattr(tp, "__args__", ()) or ())
+after = sorted(k for k in t.ALL_TYPES_MAP)
+added = [k for k in after if k not in before]
 bad, n = [], 0
 for name, obj in sorted(t.ALL_TYPES_MAP.items(), key=lambda kv: kv[0]):
     if isinstance(obj, type) and attrs.has(obj):
@@ -48,7 +50,7 @@ for name, obj in sorted(t.ALL_TYPES_MAP.items(), key=lambda kv: kv[0]):
             n += 1
             if has_fwd(a.type):
                 bad.append([name, a.name, repr(a.type)[:200]])
-print(json.dumps({"version": sys.version.split()[0], "fields": n, "unresolved": bad}))
+print(json.dumps({"version": sys.version.split()[0], "fields": n, "unresolved": bad, "added": added, "removed": [k for k in before if k not in after]}))
 """
 
 
@@ -77,6 +79,8 @@ def other_interpreters(ctx: Ctx) -> dict:
         stats["interpreters"].append(ver)
         stats["fields_scanned"] += res["fields"]
         mm = "python" + ".".join(ver.split(".")[:2])
+        for k_ in res.get("added", []) + res.get("removed", []):
+            ctx.finding(("registry-changed-by-first-converter", str(k_), mm), f"Python {ver}: the first get_converter() adds / removes the registry key {k_!r}", {"key": str(k_), "interpreter": exe})
         for cname, aname, shown in res["unresolved"]:
             ctx.finding(("unresolved-forward-ref", f"{cname}.{aname}", mm), f"Python {ver}: after the first get_converter() the field type is still {shown}",
                         {"locus": f"{cname}.{aname}", "interpreter": exe})
@@ -250,6 +254,9 @@ def run(ctx: Ctx, sub=None) -> None:
         evaluations += 1
         if getattr(t, name, None) is not obj and getattr(t, name, None) != obj:
             fail("registry-foreign", name, "entry is not the module attribute of that name")
+        elif name not in defined and not (isinstance(obj, type) or typing.get_origin(obj) is not None or obj in (object, typing.Any)):
+            # (the subject has created a converter by now: the registry is looked at after first use)
+            fail("registry-foreign", name, f"entry is not a protocol type: {type(obj).__name__}")
     # forward references resolved after first converter creation (the subject created one)
     unresolved = 0
     for name, obj in defined.items():
